@@ -93,6 +93,17 @@ def alias_of(t, depth=0):
         if name in SHALLOW_CALLS and t[2]:
             a = alias_of(t[2][0], depth + 1)
             return None if a is None else (a[0], a[1] + 1)
+        if isinstance(name, str) and "::" in name:
+            # a project function that hands out (part of) one of its arguments, of its class or of a module global
+            for kind, who, k in _returned_aliases(name):
+                if kind == "global":
+                    return (who, k)
+                if kind == "self":
+                    return (("self",), k)
+                if kind == "arg" and who < len(t[2]):
+                    a = alias_of(t[2][who], depth + 1)
+                    if a is not None:
+                        return (a[0], max(a[1] + k, 0))
         return None
     if tag == "mcall":
         recv, name = t[1], t[2]
@@ -140,9 +151,60 @@ def alias_of(t, depth=0):
     return None
 
 
+_RET = {"repo": None, "memo": {}, "active": set()}
+
+
+def _returned_aliases(key):
+    """[(kind, who, k)] - what the values returned by project function `key` alias: ('global', root, k) a module global or a class
+    attribute reached through cls; ('self', None, k) state of the receiver; ('arg', positional index, k) an argument."""
+    repo = _RET["repo"]
+    if repo is None:
+        return []
+    memo = _RET["memo"]
+    if key in memo and memo[key][0] is repo:
+        return memo[key][1]
+    if key in _RET["active"]:
+        return []
+    _RET["active"].add(key)
+    out = []
+    try:
+        rel, qual = key.split("::")
+        try:
+            fi = repo.func(rel, qual)
+        except Exception:
+            fi = None
+        if fi is not None and not qual.endswith(".__init__"):
+            ft = fn_terms(repo, fi)
+            bound = fi.cls is not None and fi.params and fi.params[0] in ("self", "cls") and not any("staticmethod" in d for d in fi.decorators)
+            for n in ft.cfg.nodes:
+                if n.kind != "return" or n.stmt.value is None:
+                    continue
+                try:
+                    a = alias_of(ft.term(n.stmt.value, n.id), 30)
+                except Exception:
+                    a = None
+                if a is None:
+                    continue
+                root, k = a
+                if root[0] == "global":
+                    out.append(("global", root, k))
+                elif root[0] == "param" and bound and root[1] == fi.params[0]:
+                    if fi.params[0] == "cls" or any("classmethod" in d for d in fi.decorators):
+                        out.append(("global", ("global", rel, "%s.<class state>" % fi.cls.name), k))
+                    else:
+                        out.append(("self", None, k))
+                elif root[0] == "param" and root[1] in fi.params:
+                    out.append(("arg", fi.params.index(root[1]) - (1 if bound else 0), k))
+    finally:
+        _RET["active"].discard(key)
+    memo[key] = (repo, out)
+    return out
+
+
 class Analyzer:
     def __init__(self, repo):
         self.repo = repo
+        _RET["repo"] = repo
         self._summary = {}
         self._active = set()
 
